@@ -17,7 +17,6 @@ def main():
     ck.outside.append('randomness sources that fail or return short reads (property C19)')
     ck.assumptions += sm2model.CONTRACTS
     eng = proto_engine(prog)
-    eng.deadline = time.time() + (900 if not thorough else 4 * 3600)
     # ---------------------------------------------------------------- special vectors on the real build first (cheap): the signature for keys with
     # leading zero bytes, short and all-ones key encodings, extreme digests and nonces must be the GM/T 0003.2 value
     rng0 = ck.rng
@@ -32,9 +31,9 @@ def main():
     src0 = '''package sm2
 import ("testing"; "bytes")
 type verifReader struct{ b []byte; used int }
-func (r *verifReader) Read(p []byte) (int, error) { n := copy(p, r.b[r.used:]); r.used += n; return n, nil }
+func (r *verifReader) Read(p []byte) (int, error) { if r.used >= len(r.b) { for i := range p { p[i] = 0x5a }; r.used += len(p); return len(p), nil }; n := copy(p, r.b[r.used:]); r.used += n; return n, nil }
 type chunkReader struct{ b []byte; used, chunk int }
-func (r *chunkReader) Read(p []byte) (int, error) { if len(p) > r.chunk { p = p[:r.chunk] }; n := copy(p, r.b[r.used:]); r.used += n; return n, nil }
+func (r *chunkReader) Read(p []byte) (int, error) { if len(p) > r.chunk { p = p[:r.chunk] }; if r.used >= len(r.b) { for i := range p { p[i] = 0x5a }; r.used += len(p); return len(p), nil }; n := copy(p, r.b[r.used:]); r.used += n; return n, nil }
 func TestVerifReplay(t *testing.T) {
 	cases := []struct{ d, e, k, r, s []byte }{
 %s
@@ -58,6 +57,8 @@ func TestVerifReplay(t *testing.T) {
     elif ok0 is False:
         ck.record('sign[special-vectors]', 'violated', 'the signature for a special key / digest / nonce differs from the GM/T 0003.2 value: ' + (out0 or '')[-300:].replace('\n', ' '))
         ck.violation('special-vectors', 'SignHashed differs from the standard for a special key (leading zero bytes, short or all-ones encoding, extreme digest or nonce)', path0)
+    # a violation is already established by the special vectors: the symbolic phase then only gets a short budget
+    eng.deadline = time.time() + (120 if ok0 is False else (900 if not thorough else 4 * 3600))
     fails = {}      # key -> list of (desc, model, info)
     cexkeys = set()
     unknown = []
@@ -157,7 +158,7 @@ func TestVerifReplay(t *testing.T) {
         src = '''package sm2
 import ("testing"; "bytes")
 type verifReader struct{ b []byte; used int }
-func (r *verifReader) Read(p []byte) (int, error) { n := copy(p, r.b[r.used:]); r.used += n; return n, nil }
+func (r *verifReader) Read(p []byte) (int, error) { if r.used >= len(r.b) { for i := range p { p[i] = 0x5a }; r.used += len(p); return len(p), nil }; n := copy(p, r.b[r.used:]); r.used += n; return n, nil }
 func TestVerifReplay(t *testing.T) {
 	rd := &verifReader{b: %s}
 	%s
@@ -252,7 +253,7 @@ func TestVerifReplay(t *testing.T) {
         src = '''package sm2
 import ("testing"; "bytes")
 type verifReader struct{ b []byte; used int }
-func (r *verifReader) Read(p []byte) (int, error) { n := copy(p, r.b[r.used:]); r.used += n; return n, nil }
+func (r *verifReader) Read(p []byte) (int, error) { if r.used >= len(r.b) { for i := range p { p[i] = 0x5a }; r.used += len(p); return len(p), nil }; n := copy(p, r.b[r.used:]); r.used += n; return n, nil }
 func TestVerifReplay(t *testing.T) {
 	rd := &verifReader{b: %s}
 	r, s, err := SignHashed(rd, %s, %s)
